@@ -713,19 +713,14 @@ func (c *Ctx) newickOrder(wt, wn *FuncInfo) {
 	r := recvObj(info, wn.Decl)
 	var blk *ast.BlockStmt
 	var child types.Object
-	ast.Inspect(wn.Decl.Body, func(n ast.Node) bool {
-		rs, ok := n.(*ast.RangeStmt)
-		if !ok || rs.Value == nil || c.canon(info, rs.X, nil) != r.Name()+".neigh" {
-			return true
-		}
-		child = identObj(info, rs.Value)
-		for _, s := range rs.Body.List {
+	if loopBody, ch := c.neighLoop(info, wn.Decl.Body, r.Name()); loopBody != nil {
+		child = ch
+		for _, s := range loopBody.List {
 			if is, ok := s.(*ast.IfStmt); ok && is.Else == nil && mentions(info, is.Cond, child) {
 				blk = is.Body
 			}
 		}
-		return true
-	})
+	}
 	if blk == nil {
 		c.Undecided("ORDER", "tree.Node.Newick/per-child-block", wn.Decl.Pos(), "the per-child block (range over the node's neighbours, `if child != parent`) was not found")
 		return
@@ -840,12 +835,7 @@ func (c *Ctx) newickGuards(wn *FuncInfo) {
 	clause := "supports (with p-values) ... an inner node carries either a name or a support; -1 is the 'absent' sentinel"
 	var child types.Object
 	r := recvObj(info, wn.Decl)
-	ast.Inspect(wn.Decl.Body, func(n ast.Node) bool {
-		if rs, ok := n.(*ast.RangeStmt); ok && rs.Value != nil && c.canon(info, rs.X, nil) == r.Name()+".neigh" {
-			child = identObj(info, rs.Value)
-		}
-		return true
-	})
+	_, child = c.neighLoop(info, wn.Decl.Body, r.Name())
 	o := &canonOpts{subst: map[types.Object]string{}}
 	if child != nil {
 		o.subst[child] = "$C"
@@ -993,4 +983,35 @@ func (c *Ctx) newickParens(wn *FuncInfo) {
 	} else {
 		c.Check(eq, "GF", "tree.Node.Newick/parens-balanced", pos[")"], "'(' and ')' are written under the same condition", "'(' is written under "+guards["("].String()+" but ')' under "+guards[")"].String()+": "+wit2).Clause = clause
 	}
+}
+
+// neighLoop: the loop of a writer over the neighbours of its receiver - `for _, child := range
+// n.neigh` or the counting form `for i := 0; i < len(n.neigh); i++ { child := n.neigh[i] ..` -
+// with the variable that holds the current neighbour.
+func (c *Ctx) neighLoop(info *types.Info, body *ast.BlockStmt, recv string) (loopBody *ast.BlockStmt, child types.Object) {
+	ast.Inspect(body, func(n ast.Node) bool {
+		if loopBody != nil {
+			return false
+		}
+		switch x := n.(type) {
+		case *ast.RangeStmt:
+			if x.Value != nil && c.canon(info, x.X, nil) == recv+".neigh" {
+				loopBody, child = x.Body, identObj(info, x.Value)
+			}
+		case *ast.ForStmt:
+			if !isIndexLoop(info, x) || len(x.Body.List) == 0 {
+				return true
+			}
+			as, ok := x.Body.List[0].(*ast.AssignStmt)
+			if !ok || as.Tok != token.DEFINE || len(as.Lhs) != 1 || len(as.Rhs) != 1 {
+				return true
+			}
+			ix, isIx := unparen(as.Rhs[0]).(*ast.IndexExpr)
+			if isIx && c.canon(info, ix.X, nil) == recv+".neigh" {
+				loopBody, child = x.Body, identObj(info, as.Lhs[0])
+			}
+		}
+		return true
+	})
+	return
 }
